@@ -866,7 +866,7 @@ class Task:
             if self in v.__successors:
                 v.__successors.remove(self)
 
-        self.__predecessors = [v for v in value]
+        self.__predecessors[:] = value
 
         for v in value:
             if self not in v.__successors:
@@ -923,7 +923,7 @@ class Task:
             if self in v.__predecessors:
                 v.__predecessors.remove(self)
 
-        self.__successors = [v for v in value]
+        self.__successors[:] = value
 
         for v in value:
             if self not in v.__predecessors:
